@@ -18,9 +18,12 @@ TYPED = {
     'DTM': ['2020', '202002', '20200229', '2020022913', '202002291359', '20200229135901', '20200229135901.1',
             '20200229135901.1234', '20200229135901+0100', '2020-0500', '202002291359-1200',
             # offsets at and beyond the bounds the library knows: whatever it thinks of them, TOLERANT keeps the text
-            '20240102030405-1300', '20240102030405-1459', '2024+1459', '202401-1201', '20240102+1500'],
+            '20240102030405-1300', '20240102030405-1459', '2024+1459', '202401-1201', '20240102+1500',
+            # more fractional digits than HL7 allows: no DTM for STRICT, text like any other for TOLERANT
+            '20200229135901.12345', '19800101120000.123456+0100', '20200229135901.1234567'],
     'TM': ['13', '1359', '135901', '135901.12', '135901.1234', '1359+0100', '13-0500', '0000', '235959',
-           '1200-1300', '1200-1400', '1200+1459', '1200-1201', '1200+1500'],
+           '1200-1300', '1200-1400', '1200+1459', '1200-1201', '1200+1500', '135901.12345', '135901.123456-0500',
+           '135901.1234567'],
     'TN': ['5551234', '555-1234', '(02)555-1234', '01 (02)555-1234X12B34Ctext'],
     'SNM': ['1', '12', '0012'],
 }
